@@ -431,6 +431,8 @@ class Engine:
     if name == 'self' and self.u.get('self_str'):
       return self.e_Attribute(ast.Attribute(value=ast.Name(id='self'), attr=self.u['self_str'],
                                             lineno=n.lineno), st)
+    if name in self.u.get('calls', {}):
+      return Callable_('unit', unit=self.reg[self.u['calls'][name]], self_=None)
     if name in self.u.get('ufs', {}):
       return Callable_('uf', name=name)
     if name in self.u.get('constructors', {}):
